@@ -2,7 +2,9 @@
 (* code -> spec (C29): records of calls of the real Path.from_nodes / get_refined / getKline / get_K_list /
    TABresult.self_to_path, one TLC state per record.  Points arrive as 4-tuples [x, y, z, d] (the harness multiplies
    the floating-point coordinates by the known common denominator, verifies integrality and reduces), squared
-   path-coordinate steps as reduced fractions [num, den] in the units of the integer lattice A. *)
+   path-coordinate steps as reduced fractions [num, den] in the units of the integer lattice A (the harness divides
+   them by a common positive constant if the code's path coordinate has another unit).  Clauses named info_* are
+   internal details that the statement of C29 does not name: they are counted, they never decide. *)
 EXTENDS PathSpec, Json, IOUtils, TLCExt
 VARIABLE i
 Recs == JsonDeserialize(IOEnv.TRACE_FILE).recs
@@ -15,22 +17,34 @@ PathOf(p) == TLCEval([K |-> Seq2(p.K), labels |-> [k \in 1..Len(p.labels) |-> <<
 Strip(p) == [K |-> p.K, labels |-> p.labels, breaks |-> p.breaks]
 SameSteps(a, b) == Len(a) = Len(b) /\ \A k \in 1..Len(a) : a[k][1] * b[k][2] = b[k][1] * a[k][2]
 
+(* from_nodes.  dk / length: the record carries nkout, the number of points per sampled segment read off the real
+   path (distance between the labelled node positions); the path must be THE uniform path with these nk and every nk
+   must be a sampling with dk (DkSpacingOK).  Which of the admissible nk the code picks (its rounding rule) is
+   information only (info_* clauses never decide).  labels=None: the harness replaces the label texts by the
+   specification's default texts (only the labelled index set is compared). *)
 NodesClauses ==
    LET nodes == Seq2(Rec.nodes)
        labels == IF Rec.deflab THEN DefaultLabels(nodes) ELSE AsSeq(Rec.labels)
-       spec == [mode |-> Rec.mode, nk |-> AsSeq(Rec.nk), inv |-> AsSeq(Rec.inv), A |-> Mat(Rec.A)]
+       spec0 == [mode |-> Rec.mode, nk |-> AsSeq(Rec.nk), inv |-> AsSeq(Rec.inv), A |-> Mat(Rec.A)]
+       byDk == Rec.mode \in {"dk", "length"}
+       nkout == AsSeq(Rec.nkout)
+       spec == IF byDk THEN [mode |-> "list", nk |-> nkout, inv |-> <<0, 1>>, A |-> Mat(Rec.A)] ELSE spec0
        P == PathOf(Rec.out)
-   IN [ in_domain      |-> NodesOK(nodes) /\ NkOK(nodes, spec),
+       segs == {k \in 1..Len(nodes) : StartsSegment(nodes, k)}
+   IN [ in_domain      |-> NodesOK(nodes) /\ (IF byDk THEN Len(nkout) = NumSegments(nodes) ELSE NkOK(nodes, spec0)),
+        nk_at_least_2  |-> byDk => \A k \in 1..Len(nkout) : nkout[k] >= 2,
+        dk_spacing     |-> byDk => \A k \in segs : DkSpacingOK(Dist2(nodes[k], nodes[k + 1], spec0.A), spec0.inv, NkDecl(nodes, spec, k)),
         equals_spec    |-> SamePath(Strip(FromNodes(nodes, labels, spec)), P),
         nodes_in_order |-> NodesInOrder(nodes, spec, P),
         labels_exact   |-> LabelsExact(nodes, labels, spec, P),
         uniform        |-> UniformSegments(nodes, spec, P),
         breaks_exact   |-> BreaksExact(nodes, spec, P),
         length         |-> LengthExact(nodes, spec, P),
-        kline_steps    |-> SameSteps(Seq2(Rec.kline2), KlineSteps(P, spec.A, NoThresh)),
         kline_flat     |-> \A b \in BreakSet(P) : Rec.kline2[b + 1][1] = 0,
         kline_monotone |-> \A k \in 1..Len(Rec.kline2) : Rec.kline2[k][1] >= 0 /\ Rec.kline2[k][2] > 0,
-        kline_uniform  |-> KlineUniform(nodes, spec, P, spec.A) ]
+        info_round_nearest |-> byDk /\ NkOK(nodes, spec0) => \A k \in segs : NkDecl(nodes, spec, k) = NkDecl(nodes, spec0, k),
+        info_kline_steps   |-> SameSteps(Seq2(Rec.kline2), KlineSteps(P, spec.A, NoThresh)),
+        info_kline_uniform |-> KlineUniform(nodes, spec, P, spec.A) ]
 RefinedClauses ==
    LET P == PathOf(Rec.path) R == PathOf(Rec.out) f == Rec.f A == Mat(Rec.A)
    IN [ in_domain     |-> PathOK(P) /\ f >= 1,
@@ -41,14 +55,19 @@ RefinedClauses ==
         length        |-> RefLength(P, f, R),
         uniform       |-> RefUniform(P, f, R),
         no_breaks     |-> RefNoBreaks(P, f, R),
-        kline_steps   |-> KlineOK(P) => SameSteps(Seq2(Rec.kline2), KlineSteps(R, A, NoThresh)),
-        kline_refined |-> KlineOK(P) => KlineRefined(P, f, R, A) ]
+        kline_flat     |-> \A b \in BreakSet(R) : Rec.kline2[b + 1][1] = 0,
+        kline_monotone |-> \A k \in 1..Len(Rec.kline2) : Rec.kline2[k][1] >= 0 /\ Rec.kline2[k][2] > 0,
+        info_kline_steps   |-> SameSteps(Seq2(Rec.kline2), KlineSteps(R, A, NoThresh)),
+        info_kline_refined |-> KlineRefined(P, f, R, A) ]
+(* get_K_list: C29 needs that the batches together hold every path point exactly once (each is evaluated; the order
+   is restored by self_to_path).  How the points are cut into batches is internal chunking: information only. *)
 BatchClauses ==
    LET P == [K |-> Seq2(Rec.K), labels |-> <<>>, breaks |-> <<>>]
        bs == [t \in 1..Len(Rec.out) |-> Seq2(Rec.out[t])]
-   IN [ equals_spec |-> bs = Batches(P, Rec.kb),
-        concat      |-> BatchesConcat(bs, P),
-        sizes       |-> BatchesSizes(bs, P, Rec.kb) ]
+   IN [ covers           |-> SameBag(FlattenSeq(bs), P.K),
+        info_equals_spec |-> bs = Batches(P, Rec.kb),
+        info_concat      |-> BatchesConcat(bs, P),
+        info_sizes       |-> BatchesSizes(bs, P, Rec.kb) ]
 (* self_to_path: Rec.kp = result k-points in the order they were collected, Rec.tags = the class tag stored as data
    of each of them, Rec.out = the tags found along the path after self_to_path *)
 ToPathClauses ==
